@@ -1195,3 +1195,4 @@ def replay(ctx, payload):
     if "session" in case or "machine_sequence" in case:
         return c02_sessions.replay_sessions(ctx, payload)
     eval_problems(ctx, [case["problem"]])
+THEOREMS += ['gen_add_resources', 'gen_subtract_resources', 'gen_overallocated', 'gen_resources_after_reservation', 'gen_resources_after_reservation_absent', 'gen_machine_ok']   # translator tie: generated function bodies = model (Props/C02Gen.lean)
